@@ -146,9 +146,15 @@ func (acc *DB) ExecActive(addr, execaddr string, amount int64) (*types.Receipt, 
 	return acc.execReceipt(ty, acc1, receiptBalance), nil
 }
 
+// sameAccount reports whether two address spellings are stored under the same account key
+// (e.g. hex addresses that differ only in letter case)
+func sameAccount(a, b string) bool {
+	return a == b || string(address.FormatAddrKey(a)) == string(address.FormatAddrKey(b))
+}
+
 // ExecTransfer 执行转帐
 func (acc *DB) ExecTransfer(from, to, execaddr string, amount int64) (*types.Receipt, error) {
-	if from == to {
+	if sameAccount(from, to) {
 		return nil, types.ErrSendSameToRecv
 	}
 	if !acc.CheckAmount(amount) {
@@ -184,7 +190,7 @@ func (acc *DB) ExecTransfer(from, to, execaddr string, amount int64) (*types.Rec
 
 // ExecTransferFrozen 从自己冻结的钱里面扣除，转移到别人的活动钱包里面去
 func (acc *DB) ExecTransferFrozen(from, to, execaddr string, amount int64) (*types.Receipt, error) {
-	if from == to {
+	if sameAccount(from, to) {
 		return nil, types.ErrSendSameToRecv
 	}
 	if !acc.CheckAmount(amount) {
